@@ -251,14 +251,28 @@ impl Lexer {
         ))
     }
 
+    /// Skip to the end of the current line (the newline itself is kept).
+    ///
+    /// Used after a malformed string or character literal: what follows on the
+    /// line is the broken remainder of the literal, not tokens.
+    fn skip_rest_of_line(&mut self) {
+        while let Some(current) = self.current() {
+            if current == '\n' {
+                break;
+            }
+            self.consume_char();
+        }
+    }
+
     /// Create the error for an invalid string.
     fn invalid_string(
-        &self,
+        &mut self,
         partial: String,
         kind: StringLexErrorType,
         start: Position,
         end: Position,
     ) -> Result<Token, LexError> {
+        self.skip_rest_of_line();
         Err(LexError::InvalidString(
             Box::new(Token::new(
                 TokenType::String(partial.clone()),
@@ -383,6 +397,7 @@ impl Iterator for Lexer {
                 let string_str = match self.acc_string() {
                     Ok(s) => s,
                     Err(e) => {
+                        self.skip_rest_of_line();
                         return Some(Err(LexError::InvalidString(
                             Box::new(Token::new(
                                 TokenType::String(String::new()),
@@ -478,10 +493,19 @@ impl Iterator for Lexer {
                 let start = self.get_pos();
                 let mut symbol_str: String = String::new();
 
-                // If the first character is not a symbol char -> error
+                // If the first character is not a symbol char -> error.
+                // Report the character and go on: returning `None` here would
+                // read as the end of the file and drop the rest of it.
                 if let Some(current) = self.current() {
                     if !Self::is_symbol_item(current) {
-                        return None;
+                        let pos = self.get_range();
+                        self.consume_char();
+                        return Some(Err(LexError::UnexpectedToken(Box::new(Token::new(
+                            TokenType::Symbol(current.to_string()),
+                            current.to_string(),
+                            pos,
+                            self.source_id,
+                        )))));
                     }
                 }
 
